@@ -437,7 +437,52 @@ class Inliner:
         sub: Dict[str, ast.AST] = {}
         ren: Dict[str, str] = {}
         pre: List[ast.stmt] = []
+        # ---- in/out coalescing: `x, y = helper(x, y, ...)` where the helper returns its (updated) parameters,
+        # and `x = helper(...)` where the helper returns one of its locals: the helper's variable IS the caller's
+        # variable, so no copy-in / copy-out is generated and the inlined statements read like the code that
+        # was extracted
+        coalesced: List[Optional[str]] = []
+        if mode == "assign" and target is not None:
+            tnames = [target.id] if isinstance(target, ast.Name) else (
+                [e.id for e in target.elts] if isinstance(target, ast.Tuple) and all(isinstance(e, ast.Name) for e in target.elts) else None)
+            rets = [n for n in _walk_own(fn) if isinstance(n, ast.Return)]
+            rnames = None
+            if tnames and rets:
+                shapes = set()
+                for r_ in rets:
+                    v_ = r_.value
+                    if isinstance(v_, ast.Name):
+                        shapes.add((v_.id,))
+                    elif isinstance(v_, ast.Tuple) and all(isinstance(e, ast.Name) for e in v_.elts):
+                        shapes.add(tuple(e.id for e in v_.elts))
+                    else:
+                        shapes.add(None)
+                if len(shapes) == 1 and None not in shapes:
+                    rnames = list(shapes.pop())
+            if rnames and len(rnames) == len(tnames) and len(set(rnames)) == len(rnames) and _always_returns(fn.body):
+                arg_names = {x.id for a_ in binding.values() for x in ast.walk(a_) if isinstance(x, ast.Name)}
+                callee_names = _all_names(fn)
+                for rn, tn in zip(rnames, tnames):
+                    if rn in binding:
+                        a_ = binding[rn]
+                        if isinstance(a_, ast.Name) and a_.id == tn:
+                            coalesced.append(rn)
+                            continue
+                    elif rn in assigned and tn not in arg_names and (tn not in callee_names or tn == rn):
+                        coalesced.append(rn)
+                        continue
+                    coalesced.append(None)
+                for rn, tn, co in zip(rnames, tnames, coalesced):
+                    if co is not None:
+                        ren[rn] = tn
+            else:
+                rnames = None
+            self._coalesce = (rnames, coalesced) if rnames and any(c is not None for c in coalesced) else None
+        else:
+            self._coalesce = None
         for p, a in binding.items():
+            if p in ren:
+                continue  # coalesced with the caller's variable of the same role
             if p not in assigned and _is_pure_arg(a) and not (isinstance(a, ast.Name) and a.id in assigned):
                 sub[p] = a
             else:
@@ -446,7 +491,7 @@ class Inliner:
                 st = ast.Assign(targets=[ast.Name(id=nm, ctx=ast.Store())], value=copy.deepcopy(a))
                 pre.append(ast.copy_location(st, call))
         for loc in assigned:
-            if loc in binding:
+            if loc in binding or loc in ren:
                 continue
             if loc in caller_names:
                 ren[loc] = loc + tag
@@ -462,8 +507,17 @@ class Inliner:
             if not _always_returns(body):
                 out = body + [ast.copy_location(ast.Return(value=ast.Constant(value=None)), call)]
         else:
+            co = self._coalesce
+
             def mk(value, at):
                 if mode == "assign":
+                    if co is not None:
+                        rnames_, coal_ = co
+                        if all(c is not None for c in coal_):
+                            return []  # every returned variable already is the caller's variable
+                        tg = [e for e, c in zip(target.elts, coal_) if c is None]
+                        vs = [e for e, c in zip(value.elts, coal_) if c is None]
+                        return [ast.copy_location(ast.Assign(targets=[copy.deepcopy(t_)], value=v_), at) for t_, v_ in zip(tg, vs)]
                     v = value if value is not None else ast.Constant(value=None)
                     return [ast.copy_location(ast.Assign(targets=[copy.deepcopy(target)], value=v), at)]
                 if value is not None and any(isinstance(x, ast.Call) for x in ast.walk(value)):
